@@ -94,7 +94,9 @@ class Scheduler:
         self.cv = threading.Condition(_thread.allocate_lock())
         self.turn = None
         self.alive = set()
-        self.blocked = {}  # thread name -> lock
+        self.blocked = {}  # thread name -> lock / event
+        self.timed = set()  # blocked threads whose wait has a timeout
+        self.timedout = set()
         self.held = {}  # id(lock) -> (lock, thread name)
         self.ident = {}
         self.steps = {}
@@ -165,10 +167,18 @@ class Scheduler:
             if not forced:
                 cands = sorted(cands + [me])
             if not cands:
-                self.deadlock = {"blocked": {t: self._lock_name(l) for t, l in sorted(self.blocked.items())},
-                                 "held": sorted((self._lock_name(l), t) for l, t in self.held.values())}
-                self._abort_locked("deadlock")
-                raise DeadlockAbort()
+                timed = sorted(t for t in self.blocked if t in self.timed)
+                if timed:  # virtual time jumps to the earliest timer: that waiter times out
+                    t = timed[0]
+                    del self.blocked[t]
+                    self.timedout.add(t)
+                    self.stats["timeouts_fired"] = self.stats.get("timeouts_fired", 0) + 1
+                    cands = [t]
+                else:
+                    self.deadlock = {"blocked": {t: self._lock_name(l) for t, l in sorted(self.blocked.items())},
+                                     "held": sorted((self._lock_name(l), t) for l, t in self.held.values())}
+                    self._abort_locked("deadlock")
+                    raise DeadlockAbort()
             nxt = self.policy.choose(cands, me, step, forced)
             if nxt == me:
                 return
@@ -218,11 +228,20 @@ class Scheduler:
     def is_worker(self):
         return _thread.get_ident() in self.ident
 
-    def block_on(self, lock):
+    def block_on(self, lock, timed=False):
+        """Park the calling worker until `lock` is released / set.  Returns True if a timed wait ended
+        by its (virtual) timeout: that happens exactly when no other thread can run."""
         me = self.ident[_thread.get_ident()]
         self.blocked[me] = lock
+        if timed:
+            self.timed.add(me)
         self.stats["F-lock-block"] += 1
         self._yield(me, self.steps[me], True)
+        self.timed.discard(me)
+        if me in self.timedout:
+            self.timedout.discard(me)
+            return True
+        return False
 
     def note_lock_acquired(self, lock):
         me = self.ident.get(_thread.get_ident())
@@ -291,6 +310,13 @@ class Scheduler:
                             nxt = self.policy.choose(r, name, self.steps[name] + 1, True)
                             self.switches.append([name, self.steps[name] + 1, nxt, "end"])
                             self.turn = nxt
+                        elif self.alive and any(t in self.timed for t in self.blocked):
+                            t = sorted(t for t in self.blocked if t in self.timed)[0]  # a timed wait times out in virtual time
+                            del self.blocked[t]
+                            self.timedout.add(t)
+                            self.stats["timeouts_fired"] = self.stats.get("timeouts_fired", 0) + 1
+                            self.switches.append([name, self.steps[name] + 1, t, "end"])
+                            self.turn = t
                         elif self.alive:
                             self.deadlock = {"blocked": {t: self._lock_name(l) for t, l in sorted(self.blocked.items())},
                                              "held": sorted((self._lock_name(l), t) for l, t in self.held.values())}
